@@ -76,6 +76,9 @@ def step (d : DState) (t : List String) : DState × String :=
         (fn == "0" || fn == "1" || fn == "2" || fn == "3" || fn == "4" || fn == "5") then
       (d, expect)
     else (d, "err:badop")
+  | ["run", seed, script, expect] =>
+    if (expect == "ok" || expect == "err") && validSeed script && d.progs.contains seed then (d, expect)
+    else (d, "err:badop")
   | _ => (d, "err:badop")
 
 end GnoVerif.Drive.C06
